@@ -53,6 +53,7 @@ struct Engine
     RunOut out;
     Hash trace, dig;
     std::string site;
+    int cur_idx = 0;
 
     Engine()
     {
@@ -88,6 +89,22 @@ struct Engine
     {
         m.alive = true; m.w = im.width(); m.h = im.height();
         m.vals = read_vals(im);
+    }
+    // Contents that the statement leaves unspecified (default construction of trivial pixels, recreate without fill
+    // value, target of a failed operation, moved-from image) depend on what the storage held before and, for
+    // non-power-of-two alignments, on the address residue of the block.  The harness overwrites them with a value
+    // derived from the operation index - as a user would before using the image - so that digests stay a function of
+    // the plan alone and the writes themselves probe the storage.
+    template <class Img> void normalise(Model& m, Img& im, uint64_t salt)
+    {
+        auto v = gil::view(im);
+        for (std::ptrdiff_t y = 0; y < v.height(); ++y)
+            for (std::ptrdiff_t x = 0; x < v.width(); ++x)
+            {
+                value_t p = K::make(mix(salt, (uint64_t)(y * 4099 + x)));
+                v(x, y) = p;
+            }
+        adopt(m, im);
     }
     static int live_count(Model const* m, int n) { int c = 0; for (int i = 0; i < n; ++i) c += m[i].alive; return c; }
     int pick_live(Model const* m, int n, int64_t want) const
@@ -208,6 +225,7 @@ struct Engine
     {
         std::string kind = op.str("op");
         site = kind;
+        cur_idx = idx;
         W.cur_site = site.c_str(); L.cur_site = site.c_str(); W.cur_op = idx;
         W.place.right = op.num("left") == 0;
         W.place.slack = (unsigned)(op.num("slack") % 5) * 16u;
@@ -259,9 +277,15 @@ struct Engine
     int thr_t = -1, thr_s = -1, thr_pt = -1;
     void after_throw(std::string const&, Json const&)
     {
-        if (thr_t >= 0 && img[thr_t]) adopt(mod[thr_t], *img[thr_t]);
-        if (thr_s >= 0 && img[thr_s]) adopt(mod[thr_s], *img[thr_s]);
+        if (thr_t >= 0 && img[thr_t]) adopt_unspecified(mod[thr_t], *img[thr_t]);
+        if (thr_s >= 0 && img[thr_s] && thr_s != thr_t) adopt_unspecified(mod[thr_s], *img[thr_s]);
         if (thr_pt >= 0 && pimg[thr_pt]) adopt(pmod[thr_pt], *pimg[thr_pt]);
+    }
+
+    // dims are read back first (they decide whether there is anything to write), then the contents are normalised
+    void adopt_unspecified(Model& m, Image& im)
+    {
+        normalise(m, im, 0xFA17u + (uint64_t)cur_idx);
     }
 
     int target_for_ctor(Json const& op)
@@ -309,7 +333,7 @@ struct Engine
             else
             {
                 mod[t].alive = true; mod[t].w = w; mod[t].h = h;
-                if (img[t]->width() == w && img[t]->height() == h) mod[t].vals = read_vals(*img[t]); // unspecified contents
+                if (img[t]->width() == w && img[t]->height() == h) normalise(mod[t], *img[t], 0xD1A5u + (uint64_t)cur_idx); // unspecified contents
                 else mod[t].vals.assign((size_t)(w * h), 0);
             }
             check_row_alignment(*img[t], align, "ctor_dims");
@@ -373,7 +397,7 @@ struct Engine
             if (mod[t].alive) kill(t);
             img[t] = new Image(std::move(*img[s]));
             mod[t] = mod[s];
-            adopt(mod[s], *img[s]); // valid but unspecified
+            adopt_unspecified(mod[s], *img[s]); // valid but unspecified
         }
         else if (k == "copy_assign")
         {
@@ -411,8 +435,8 @@ struct Engine
             thr_t = t; thr_s = s;
             Model ms = mod[s];
             *img[t] = std::move(*img[s]);
-            if (t != s) { mod[t] = ms; adopt(mod[s], *img[s]); }
-            else adopt(mod[t], *img[t]);
+            if (t != s) { mod[t] = ms; adopt_unspecified(mod[s], *img[s]); }
+            else adopt_unspecified(mod[t], *img[t]);
         }
         else if (k == "recreate")
         {
@@ -556,7 +580,9 @@ struct Engine
                          " bytes is large enough (" + std::to_string(required_bytes(w, h, align)) + " needed)");
             }
         }
-        Model m; m.alive = true; m.w = w; m.h = h; m.vals = read_vals(im);
+        Model m; m.alive = true; m.w = w; m.h = h;
+        if (!with_fill) { normalise(m, im, 0x5EC2u + (uint64_t)cur_idx); mod[t] = m; return; }
+        m.vals = read_vals(im);
         if (with_fill)
         {
             uint64_t d = val_digest(val);
